@@ -19,7 +19,10 @@ MANIFEST = dict(
               'blocks and offsets; induction over sequences and frames for the particle sheet) + ast translators behind a semantic '
               'normalisation (codecs, layout incl. symbolic evaluation of scale_down, side lists, abstract interpretation of class '
               'Frame, pack/unpack site census, flag expression trees, order of the file-writing events of save) + vm_compute '
-              'correspondences (codecs, frame histories, container both directions incl. foreign full-chain files) + save/read oracle search',
+              'correspondences (codecs, frame histories, container both directions incl. foreign full-chain files) + save/read oracle search; '
+              'round 4: fail-closed census of every use of a frame\'s pixel array with an address-map model (shape of every access path, '
+              'allocation sizes, copy guards), if statements of the pixel loop as ETest chains (bluescreen formats, hand proof + 256-value '
+              'enumeration), per-pixel laws lifted to frames by induction and composed with the whole-file theorem; cross-path oracle',
     text='Theorems in Props/C15.v, generic in the objects read from the source. Codecs (_py_vtf_readwrite.py): if the kernel-checked '
          'boolean rt_ok codec spec holds then load(save p) is exactly the documented quantisation of p for every byte-valued pixel '
          '(identity on the used channels for the 8-bit formats), every stored value is a byte; if sf_ok holds then save(load d) = d on '
@@ -41,11 +44,24 @@ MANIFEST = dict(
          'side/depth, mipmap) read() visits gets exactly the bytes save() produced for it, for any object version and written version '
          '(save(version=)), cubemap or volume; every fitting file can be encoded. Particle sheets: read_sheet(make_sheet qs) = qs for '
          'both sheet versions (version 0 keeps the first coordinate of a frame only). The premises are regenerated from '
-         'vtf.py/_py_vtf_readwrite.py on every run and checked in the kernel (180 obligations); the generated codecs are compared with '
+         'vtf.py/_py_vtf_readwrite.py on every run and checked in the kernel (239 obligations); the generated codecs are compared with '
          'the Python codecs, the generated Frame effect tables are run by Coq on symbolic pixels against histories of operations on the '
          'implementation, implementation-saved files are decoded by the Coq container model and model-encoded files (also files that '
          'declare all mipmap levels, as other tools write them) are read by VTF.read; whole files are saved and read back over all '
-         'sizes 1x1..64x64, frames, depth, cubemaps, versions 7.2-7.5 with overrides, all writable formats, resources and sheets.',
+         'sizes 1x1..64x64, frames, depth, cubemaps, versions 7.2-7.5 with overrides, all writable formats, resources and sheets. '
+         'Round 4. Pixel access paths: every occurrence of <frame>._data in vtf.py is classified (test, None, allocation, whole copy, '
+         'item access, or argument of load/save/scale_down/ppm_convert/alpha_flatten/PIL frombuffer/memoryview.cast; anything else stops '
+         'the translation) and per site the rows/columns/bytes it uses are regenerated, also for every Frame(a, b) / frame_size(a, b); '
+         'for every site whose description passes path_ok (instance obligation per site) the accepted coordinates are exactly '
+         '[0,width) x [0,height) x [0,4) and the byte addressed is 4*(y*width + x) + c, so a pixel written through one path is read back '
+         'through every other and no other coordinate changes (c15_every_pixel_path_agrees), frame[x, y] rejects nothing inside the '
+         'frame, every allocation has 4*width*height bytes, whole arrays are copied only between frames of equal width and height. '
+         'The RGB888/BGR888_BLUESCREEN codecs are translated (if statements) and equal the hand-written keyed codec, for which '
+         'load(save p) = (0,0,0,0) if alpha < 128 or the colour is pure blue, else (r, g, b, 255), and save(load d) = d on all stored '
+         'values. Frames: decode_frame(encode_frame ps) = map q ps for frames of any size, and (c15_saved_pixels_read_back_*) for every '
+         '(frame, side, mipmap) read() visits in a file written by save(), decoding the bytes at the computed offset gives pixel by '
+         'pixel the documented quantisation of the pixels saved. A cross-path oracle writes every pixel of 15 mostly non-square '
+         'shapes through five paths and reads it through nine (incl. PIL, the PPM handed to tkinter, stand-in wx images).',
     note='Trusted: Coq kernel + vm_compute, translate/c15_norm.py (behaviour-preserving rewrites before the translators: constants, '
          'precompiled structs, product loops, guard clauses, copy propagation of locals that name a side-effect-free expression over '
          'stable attributes), c15_pixel.py (incl. its polynomial evaluator for scale_down), c15_frame.py (abstract interpreter; '
@@ -54,8 +70,12 @@ MANIFEST = dict(
          'exercised). encode_file/decode_file/make_sheet/read_sheet are hand-written models of VTF.save/VTF.read/make_data/'
          'from_resource: the theorems are about them; their tie to the source is the regenerated sites, flag trees, side lists, loop '
          'nests and event order (instance obligations), the example files evaluated in the kernel over the generated formats, and the '
-         'two-way correspondence on every run - not a refinement proof of the Python control flow. The two *_BLUESCREEN formats, the '
-         'nearest-neighbour filters beyond their offset table and the thumbnail regeneration policy are searched, not modelled. Known '
+         'two-way correspondence on every run - not a refinement proof of the Python control flow. The '
+         'nearest-neighbour filters beyond their offset table and the thumbnail regeneration policy are searched, not modelled. '
+         'translate/c15_access.py is trusted for the classification of the uses of _data, for the argument conventions of PIL '
+         'frombuffer / memoryview.cast / wx.Image (fixed table) and for naming the role of unresolvable names by the substrings '
+         'width/height; a shaped view is modelled for non-negative indexes (negative ones wrap the Python way inside the array). The '
+         'if -> ETest encoding of the bluescreen conditions is valid for byte operands. Known '
          'findings (recorded, not repaired): mipmap_count is one less than the number of levels (mipmap-count-off-by-one), '
          'RGB565/BGR565 exchange R and B on a round trip (rgb565-rb-swap) - both carved out of the theorems as *_pinned / *_refuted '
          'statements. Repaired in round 3: save(version=) across the 7.5 sphere-map boundary for cubemaps. DXT/ATI formats are not '
@@ -1960,7 +1980,13 @@ def run(ck: Ck) -> None:
                'then save; distinct by the operation list, non-trivial = at least one operation. '
                'container: small sizes, versions 7.2-7.5, cubemaps, depth, frames, 0-4 resources, sheets; distinct by configuration. '
                'cubemap save(version=) overrides: all 12 ordered pairs of versions, 1-3 frames, also on a lazily read object. '
-               'full mip chains: six shapes (square and not) x two formats with mipmap_count set to the number of levels.')
+               'full mip chains: six shapes (square and not) x two formats with mipmap_count set to the number of levels. '
+               'pixel paths: 15 shapes (12 non-square: Nx1, 1xN, 2x8, 8x2, 16x2 ...), every pixel given a distinct colour (random salt), '
+               'written through each of 5 paths (setitem, buffer protocol, copy_from bytes / frame, lazy load of a saved file) and read '
+               'through each of 9 (getitem, buffer index by index, bytes(memoryview), raw array, to_PIL, to_tkinter PPM, two wx '
+               'converters on a stand-in module, save+read), plus out-of-range probes, allocation lengths, copy_from of frames of '
+               'other sizes with the same pixel count; non-trivial = non-square. DXT1 block layout: six shapes of solid 4x4 blocks '
+               'through copy_from and the lazy load.')
     ck.trusted.append('Fmt/VtfPixelExpr.v specification tuples spec_* / canon_* (hand-written from the docstrings; their meaning as functions '
                       'is restated by c15_spec_* theorems) and checks/c15.py ref_quantise (independent Python restatement used by the oracle)')
     ck.trusted.append('translate/c15_frame.py tables D_COQ/S_COQ and READERS, translate/c15_container.py tables SAVE_FIELD/READ_FIELD/READ_ATTR '
@@ -1969,7 +1995,15 @@ def run(ck: Ck) -> None:
                       'precompiled structs, product loops, literal-tuple loops, unused enumerate, guard clauses, helper inlining, copy '
                       'propagation of locals that name a side-effect-free expression over stable attributes or inside a call-free window); '
                       'the polynomial evaluator of scale_down in translate/c15_pixel.py')
+    ck.trusted.append('translate/c15_access.py: classification of every use of <frame>._data, binding of call arguments to parameter names, the '
+                      'fixed argument conventions of PIL frombuffer / memoryview.cast / wx.Image / wx.Bitmap, _role (which dimension a local '
+                      'derives from); the `if` -> ETest-chain encoding of translate/c15_pixel.py (x < 128 = bit 7 clear, x == c = eight bit '
+                      'tests; valid for bytes, cross-checked by the codec correspondence)')
     ck.assumptions += [
+        'a shaped view of the pixel array (buffer protocol, PIL) is modelled for non-negative indexes; negative indexes follow the Python '
+        'from-the-end convention and stay inside the array',
+        'a frame is stored as the concatenation of its pixels\' stored bytes (encode_frame): the codec translator accepts only per-pixel '
+        'loops / strided slice copies with offsets inside one pixel',
         'a frame is not passed to its own copy_from/rescale_from (no aliasing of self and the parameter frame)',
         'encode_file/decode_file and make_sheet/read_sheet are hand-written models of VTF.save/VTF.read and SheetSequence.make_data/'
         'from_resource: the whole-file and sheet theorems are about the models; their tie to the source is the regenerated sites, flag '
@@ -2012,6 +2046,7 @@ def run(ck: Ck) -> None:
                 obs[f'{name}_load_of_save_{kind}'] = f'rt_ok codec_{name} {spec}'
                 obs[f'{name}_stored_fixpoint'] = f'sf_ok codec_{name} ({canon})'
         obs.update({
+            'every_codec_stores_at_least_one_byte_per_pixel': 'forallb (fun nc => Nat.ltb 0 (bpp (snd nc))) all_codecs',
             'mip_loop_breaks_when_a_side_is_1_and_halves': 'mip_loop_ok gen_mipcfg',
             'mipmap_count_is_number_of_levels_or_known_last_index': 'orb (mip_count_ok gen_mipcfg) (N.eqb (count_delta gen_mipcfg) 0)',
             'save_and_read_walk_frames_in_the_same_order': 'order_eqb save_order read_order',
